@@ -16,6 +16,16 @@ def inputs(kind, k=0):
     if kind == "tensor":
         h, w = [(12, 16), (16, 12), (20, 20)][k % 3]
         return torch.from_numpy(r.random((3, h, w), dtype=np.float32))
+    if kind == "tensorbig":
+        # more than 2**16 elements (code paths that switch algorithm / generator for large inputs)
+        return torch.from_numpy(r.random((3, 150, 150), dtype=np.float32))
+    if kind == "semsegdom":
+        # one category dominates: crops outside the small patch of other categories exceed max_category_ratio and the
+        # crop is re-sampled
+        x = torch.from_numpy(r.random((3, 20, 24), dtype=np.float32))
+        seg = torch.zeros((20, 24), dtype=torch.long)
+        seg[2 + k % 3:9 + k % 3, 4:12] = torch.from_numpy(r.integers(1, 4, size=(7, 8))).long()
+        return (x, seg)
     if kind == "tensor16":
         return torch.from_numpy(r.random((3, 16, 16), dtype=np.float32))
     if kind == "spec":
@@ -78,6 +88,8 @@ def leaf_catalog():
     C["KDAdditiveGaussianNoise.magstd"] = (lambda: T.KDAdditiveGaussianNoise(std=0.1, magnitude=0.5, magnitude_std=0.2), "tensor")
     C["KDAdditiveUniformNoise"] = (lambda: T.KDAdditiveUniformNoise(), "tensor")
     C["KDRandomAdditiveGaussianNoise"] = (lambda: T.KDRandomAdditiveGaussianNoise(p=0.8, std=0.1), "tensor")
+    C["KDAdditiveGaussianNoise.big"] = (lambda: T.KDAdditiveGaussianNoise(std=0.1), "tensorbig")
+    C["KDAdditiveUniformNoise.big"] = (lambda: T.KDAdditiveUniformNoise(), "tensorbig")
     C["KDThreshold"] = (lambda: T.KDThreshold(threshold=0.5, threshold_std=0.1), "tensor")
     C["KDRandomThreshold"] = (lambda: T.KDRandomThreshold(p=0.8, threshold=0.5, threshold_std=0.1), "tensor")
     C["KDThreeAugment"] = (lambda: T.KDThreeAugment(threshold=128, sigma=(0.1, 2.0)), "pil")
@@ -89,6 +101,7 @@ def leaf_catalog():
     C["KDSemsegRandomHorizontalFlip"] = (lambda: KDSemsegRandomHorizontalFlip(p=0.5), "semseg")
     C["KDSemsegRandomCrop"] = (lambda: KDSemsegRandomCrop(size=(8, 10)), "semseg")
     C["KDSemsegRandomCrop.ratio"] = (lambda: KDSemsegRandomCrop(size=(8, 10), max_category_ratio=0.75), "semseg")
+    C["KDSemsegRandomCrop.ratio.dominated"] = (lambda: KDSemsegRandomCrop(size=(8, 10), max_category_ratio=0.75), "semsegdom")
     C["KDSemsegRandomResize"] = (lambda: KDSemsegRandomResize(base_size=(24, 20), ratio=(0.5, 2.0)), "semsegpil")
     return C
 
